@@ -95,6 +95,10 @@ def run_check(prop, instances, tier, explanation, bounds, outside, level_assumpt
         with ctx.Pool(nproc, maxtasksperchild=8) as pool:
             for i, rec in pool.imap_unordered(_work, range(len(_INST))):
                 recs[i] = rec
+                if os.environ.get('VERIF_PROGRESS'):
+                    print('[done %d/%d] %s %.1fs unsat=%s sat=%s unknown=%s' % (
+                        sum(1 for x in recs if x is not None), len(recs), rec.get('label'), rec.get('wall_s', 0.0),
+                        rec.get('unsat'), rec.get('sat'), rec.get('unknown')), file=sys.stderr, flush=True)
     known = load_known(prop)
     tot = {'instances': len(recs), 'paths': 0, 'claims': 0, 'unsat': 0, 'sat': 0, 'unknown': 0,
            'distinct': 0, 'cut_paths': 0, 'solver_s': 0.0, 'forks': 0, 'feas_queries': 0, 'rlimit': 0}
